@@ -56,15 +56,15 @@ TIME_LIMIT = {"quick": 55, "thorough": 300}
 SANITIZER_PLAN = {
     # property -> tier -> list of stages
     "quick": {
-        "C01": ["explore"], "C02": ["explore"], "C03": ["explore"], "C04": ["explore"], "C05": ["explore"], "C06": ["explore"],
+        "C01": ["explore", "bigindex"], "C02": ["explore"], "C03": ["explore"], "C04": ["explore"], "C05": ["explore"], "C06": ["explore"],
         "C07": ["explore"], "C08": ["explore"], "C10": ["explore"], "C11": ["explore"],
         "C13": ["explore", "miri"], "C14": ["explore", "miri"],
     },
     "thorough": {
-        "C01": ["explore", "release", "miri", "asan"],
-        "C02": ["explore", "release", "miri"],
-        "C03": ["explore", "release", "asan"],
-        "C04": ["explore", "release"],
+        "C01": ["explore", "bigindex", "release", "miri", "asan"],
+        "C02": ["explore", "bigindex", "release", "miri"],
+        "C03": ["explore", "bigindex", "release", "asan"],
+        "C04": ["explore", "bigindex", "release"],
         "C05": ["explore", "release", "tsan", "miri"],
         "C06": ["explore", "release", "miri", "asan"],
         "C07": ["explore", "release", "asan"],
@@ -282,6 +282,13 @@ def write_replay(root, prop, rec):
 def replay(path, harness, repo):
     rec = json.load(open(path))
     stage = rec.get("stage", "plain")
+    if rec.get("key") == "bigindex":
+        with BuildLock(harness):
+            prepare_lock(harness, repo)
+            rc, out = cargo(harness, ["build", "--offline", "-p", "vbig", "--release"], env={"CARGO_TARGET_DIR": os.path.join(harness, "target")})
+        argv = [os.path.join(harness, "target", "release", "vbig"), rec["property"], str(rec.get("seed", 0)), "", "3"]
+        log("replaying: " + " ".join(argv))
+        return subprocess.run(argv, env=ENV_BASE).returncode
     if stage != "plain":
         log("note: this violation was found under the %s build; replaying on the plain build (%s)" % (stage, rec.get("note", "")))
     ok, msg = build_plain(harness, repo)
@@ -369,6 +376,8 @@ def run_sanitizer_stage(st, prop, tier, seed, root, harness, repo, nproc, work):
             outs.append(out)
         # cargo needs to run in the workspace
         return run_shards_cwd(cmds, envs, outs, tl + 240, harness)
+    if st == "bigindex":
+        return run_bigindex(prop, tier, seed, harness, repo, work)
     if st == "explore":
         ok, msg = build_plain(harness, repo)
         if not ok:
@@ -427,6 +436,32 @@ def run_sanitizer_stage(st, prop, tier, seed, root, harness, repo, nproc, work):
             outs.append(out)
         return run_shards(cmds, envs, outs, tl + 240, "tsan")
     return None
+
+
+def run_bigindex(prop, tier, seed, harness, repo, work):
+    """source positions beyond 2^32: plain usize pipelines over 0..2^32+k in a small release-mode program"""
+    with BuildLock(harness):
+        prepare_lock(harness, repo)
+        rc, out = cargo(harness, ["build", "--offline", "-p", "vbig", "--release"], env={"CARGO_TARGET_DIR": os.path.join(harness, "target")})
+        if rc != 0:
+            log("vbig build failed:\n" + out[-2000:])
+            return None
+    outp = os.path.join(work, "bigindex.json")
+    ncfg = "1" if tier == "quick" else "3"
+    argv = [os.path.join(harness, "target", "release", "vbig"), prop, str(seed), outp, ncfg]
+    res = run_shards([argv], [{}], [outp], 600, "bigindex")
+    r = res[0]
+    raw = r["report"]
+    if raw is not None:
+        cases = raw.get("cases", [])
+        rep = dict(evaluations=len(cases), nontrivial=len(cases), multi_worker=len(cases), events=0, closure_calls=0, inconclusive=0,
+                   by_mode={"S": 0, "F": len(cases), "Q": 0}, extra={"pipelines_over_more_than_2^32_positions": len(cases)},
+                   distinct=[hashlib.sha1(c.encode()).hexdigest()[:16] for c in cases], signatures=[], other_props={},
+                   samples=[{"case": c, "n": raw.get("n")} for c in cases[:1]], planned=len(cases), timed_out=False,
+                   violations=[dict(prop=prop, key="bigindex", msg=m, idx=0, seed=seed, tier=tier, small=False, case=m[:300], mode="F", picks="", script="")
+                               for m in raw.get("violations", [])])
+        r["report"] = rep
+    return res
 
 
 def run_shards_cwd(cmds, envs, outs, watchdog_s, cwd):
